@@ -1,10 +1,11 @@
 import CpModel.Drv.Util
 import CpModel.Tls.Canon
+import CpModel.Opp.Canon
 /- Class-level ops: P (parse_immutable), X (parse_exact_size), M (parse_mutable), R (parse + recompose). -/
 namespace Cp.Drv
 open Cp.Tls
 
-def allClasses : List DrvClass := tlsClasses
+def allClasses : List DrvClass := tlsClasses ++ Cp.Opp.oppClasses
 
 def findClass (name : String) : Option DrvClass := allClasses.find? (·.name == name)
 
